@@ -73,10 +73,12 @@ Record loop : Type := mkloop {
   l_depth : Z;                         (* ghost: callbacks currently on the stack *)
   l_log : list lev;                    (* ghost: newest first *)
   l_fuel_out : bool;
-  l_budget : Z                         (* callbacks whose program may still run during the current script line *)
+  l_budget : Z;                        (* callbacks whose program may still run during the current script line *)
+  l_overlap : bool                     (* ghost: an operation was started on a direction that already had one deferred in flight
+                                          (outside the library's contract: one read and one write per object at a time) *)
 }.
 
-Definition loop_init : loop := mkloop 0 0 [] [] [] [] 0 0 [] false 300.
+Definition loop_init : loop := mkloop 0 0 [] [] [] [] 0 0 [] false 300 false.
 
 (* ---- association lists *)
 Fixpoint lookup {A} (k : Z) (l : list (Z * A)) : option A :=
@@ -85,21 +87,24 @@ Fixpoint update {A} (k : Z) (v : A) (l : list (Z * A)) : list (Z * A) :=
   match l with [] => [(k, v)] | (k', v') :: r => if k =? k' then (k, v) :: r else (k', v') :: update k v r end.
 
 Definition set_obj (s : loop) (i : Z) (o : obj) : loop :=
-  mkloop (l_pending s) (l_disp s) (l_posts s) (update i o (l_objs s)) (l_tmrs s) (l_progs s) (l_now s) (l_depth s) (l_log s) (l_fuel_out s) (l_budget s).
+  mkloop (l_pending s) (l_disp s) (l_posts s) (update i o (l_objs s)) (l_tmrs s) (l_progs s) (l_now s) (l_depth s) (l_log s) (l_fuel_out s) (l_budget s) (l_overlap s).
 Definition set_tmr (s : loop) (i : Z) (t : tmr) : loop :=
-  mkloop (l_pending s) (l_disp s) (l_posts s) (l_objs s) (update i t (l_tmrs s)) (l_progs s) (l_now s) (l_depth s) (l_log s) (l_fuel_out s) (l_budget s).
+  mkloop (l_pending s) (l_disp s) (l_posts s) (l_objs s) (update i t (l_tmrs s)) (l_progs s) (l_now s) (l_depth s) (l_log s) (l_fuel_out s) (l_budget s) (l_overlap s).
 Definition set_pending (s : loop) (p : Z) : loop :=
-  mkloop p (l_disp s) (l_posts s) (l_objs s) (l_tmrs s) (l_progs s) (l_now s) (l_depth s) (l_log s) (l_fuel_out s) (l_budget s).
+  mkloop p (l_disp s) (l_posts s) (l_objs s) (l_tmrs s) (l_progs s) (l_now s) (l_depth s) (l_log s) (l_fuel_out s) (l_budget s) (l_overlap s).
 Definition set_disp (s : loop) (d : Z) : loop :=
-  mkloop (l_pending s) d (l_posts s) (l_objs s) (l_tmrs s) (l_progs s) (l_now s) (l_depth s) (l_log s) (l_fuel_out s) (l_budget s).
+  mkloop (l_pending s) d (l_posts s) (l_objs s) (l_tmrs s) (l_progs s) (l_now s) (l_depth s) (l_log s) (l_fuel_out s) (l_budget s) (l_overlap s).
 Definition set_depth (s : loop) (d : Z) : loop :=
-  mkloop (l_pending s) (l_disp s) (l_posts s) (l_objs s) (l_tmrs s) (l_progs s) (l_now s) d (l_log s) (l_fuel_out s) (l_budget s).
+  mkloop (l_pending s) (l_disp s) (l_posts s) (l_objs s) (l_tmrs s) (l_progs s) (l_now s) d (l_log s) (l_fuel_out s) (l_budget s) (l_overlap s).
 Definition set_posts (s : loop) (p : list Z) : loop :=
-  mkloop (l_pending s) (l_disp s) p (l_objs s) (l_tmrs s) (l_progs s) (l_now s) (l_depth s) (l_log s) (l_fuel_out s) (l_budget s).
+  mkloop (l_pending s) (l_disp s) p (l_objs s) (l_tmrs s) (l_progs s) (l_now s) (l_depth s) (l_log s) (l_fuel_out s) (l_budget s) (l_overlap s).
 Definition add_log (s : loop) (e : lev) : loop :=
-  mkloop (l_pending s) (l_disp s) (l_posts s) (l_objs s) (l_tmrs s) (l_progs s) (l_now s) (l_depth s) (e :: l_log s) (l_fuel_out s) (l_budget s).
+  mkloop (l_pending s) (l_disp s) (l_posts s) (l_objs s) (l_tmrs s) (l_progs s) (l_now s) (l_depth s) (e :: l_log s) (l_fuel_out s) (l_budget s) (l_overlap s).
+Definition note_overlap (s : loop) (b : bool) : loop :=
+  mkloop (l_pending s) (l_disp s) (l_posts s) (l_objs s) (l_tmrs s) (l_progs s) (l_now s) (l_depth s) (l_log s) (l_fuel_out s) (l_budget s)
+    (l_overlap s || b).
 Definition out_of_fuel (s : loop) : loop :=
-  mkloop (l_pending s) (l_disp s) (l_posts s) (l_objs s) (l_tmrs s) (l_progs s) (l_now s) (l_depth s) (l_log s) true (l_budget s).
+  mkloop (l_pending s) (l_disp s) (l_posts s) (l_objs s) (l_tmrs s) (l_progs s) (l_now s) (l_depth s) (l_log s) true (l_budget s) (l_overlap s).
 
 Definition new_obj (k : okind) : obj :=
   mkobj k false false false None None false (match k with KReg => 64 | _ => 0 end) false false false.
@@ -247,7 +252,7 @@ Definition do_action (s : loop) (a : action) : loop * list item :=
       | Some o =>
           let p := mkop cb all len 0 false in
           let o0 := if write then with_wr o (Some p) (o_evW o) (o_reg o) else with_rd o (Some p) (o_evR o) (o_reg o) in
-          let s := add_log s (LStart cb i write all len) in
+          let s := note_overlap (add_log s (LStart cb i write all len)) (if write then o_evW o else o_evR o) in
           if l_disp s <? sonic_MaxCallbackDispatch then io_now 64 (set_obj s i o0) i write p true
           else schedule s i o0 write p false
       end
@@ -369,7 +374,7 @@ Fixpoint exec (fuel : nat) (s : loop) (stack : list item) : loop :=
           let s1 := add_log (set_depth s d) (LCb cb err n d) in
           let s2 := if wrapped then set_disp s1 (l_disp s1 + 1) else s1 in
           let s3 := mkloop (l_pending s2) (l_disp s2) (l_posts s2) (l_objs s2) (l_tmrs s2) (l_progs s2) (l_now s2) (l_depth s2)
-                      (l_log s2) (l_fuel_out s2) (l_budget s2 - 1) in
+                      (l_log s2) (l_fuel_out s2) (l_budget s2 - 1) (l_overlap s2) in
           exec f s3 ((if 0 <? l_budget s2 then map IAct (prog_of s2 cb) else []) ++ IEnd wrapped :: rest)
       | IEnd wrapped :: rest =>
           let s1 := set_depth s (l_depth s - 1) in
@@ -410,12 +415,12 @@ Definition exec_fuel : nat := 20000.
 
 Definition lstep (s0 : loop) (o : lop) : loop :=
   let s := mkloop (l_pending s0) (l_disp s0) (l_posts s0) (l_objs s0) (l_tmrs s0) (l_progs s0) (l_now s0) (l_depth s0)
-             (l_log s0) (l_fuel_out s0) 300 in
+             (l_log s0) (l_fuel_out s0) 300 (l_overlap s0) in
   match o with
   | LObj i k => set_obj s i (new_obj k)
   | LTimer i => set_tmr s i new_tmr
   | LProg cb acts => mkloop (l_pending s) (l_disp s) (l_posts s) (l_objs s) (l_tmrs s) (update cb acts (l_progs s)) (l_now s)
-                       (l_depth s) (l_log s) (l_fuel_out s) (l_budget s)
+                       (l_depth s) (l_log s) (l_fuel_out s) (l_budget s) (l_overlap s)
   | LDepth n => set_disp s n
   | LPeer i p =>
       match lookup i (l_objs s) with
@@ -433,7 +438,7 @@ Definition lstep (s0 : loop) (o : lop) : loop :=
                     end in
           set_obj s i o'
       end
-  | LSleep ms => mkloop (l_pending s) (l_disp s) (l_posts s) (l_objs s) (l_tmrs s) (l_progs s) (l_now s + ms) (l_depth s) (l_log s) (l_fuel_out s) (l_budget s)
+  | LSleep ms => mkloop (l_pending s) (l_disp s) (l_posts s) (l_objs s) (l_tmrs s) (l_progs s) (l_now s + ms) (l_depth s) (l_log s) (l_fuel_out s) (l_budget s) (l_overlap s)
   | LPoll batch => exec exec_fuel s (map IPollEntry batch)
   | LAct a => exec exec_fuel s [IAct a]
   end.
